@@ -112,7 +112,7 @@ def analyse(src):
         r = {'key': key, 'file': 'src/' + f.file, 'line': f.line, 'fn': f.name,
              'impl': ('impl %s for %s' % (f.trait + (('<' + f.trait_args + '>') if f.trait_args else ''), ('&' if f.self_ref else '') + f.self_kind))
                      if f.trait else 'impl ' + f.self_kind,
-             'thm': thm_name(key), 'via': f.via}
+             'thm': thm_name(key), 'via': f.via, 'site': 'src/' + f.site}
         results[key] = r
         dup_differs = [d for d in tb.dups.get(key, []) if body_text(d) != body_text(f)]
         if dup_differs:
@@ -315,6 +315,15 @@ def check_generated(results, sy):
         failed.update(newfail)
     return None, failed, {'stray': ['did not converge']}, raw
 
+FORBIDDEN = re.compile(r"\b(sorry|admit|native_decide|bv_decide|implemented_by)\b|^\s*axiom\s|^\s*unsafe\s|maxHeartbeats\s+0\b", re.M)
+
+def forbidden_tokens():
+    """the framework's scan (check.py), applied to the generated file with comments stripped"""
+    with open(GEN_FILE) as fh: txt = fh.read()
+    txt = re.sub(r'/-.*?-/', '', txt, flags=re.S)
+    txt = re.sub(r'--[^\n]*', '', txt)
+    return sorted(set(m.group(0).strip() for m in FORBIDDEN.finditer(txt)))
+
 # ------------------------------------------------------------------------------------------------ commands
 def cmd_check(args):
     t0 = time.time()
@@ -357,6 +366,8 @@ def cmd_check(args):
     out = {'tied': tied, 'broken': broken, 'new': new, 'wall_s': round(time.time() - t0, 1)}
     if unexpected_fail: out['untied_new_failures'] = unexpected_fail
     if crate.errors: out['frontend_errors'] = ['%s: %s' % e for e in crate.errors]
+    bad = forbidden_tokens()
+    if bad: out['forbidden_tokens'] = bad
     print(json.dumps(out))
     return 0
 
